@@ -48,6 +48,11 @@ fn main() {
         std::process::exit(2);
     }
     let check = args[1].clone();
+    if check == "mode-info" {
+        // which pieces of the server's main() this build runs: its own lines (cut out at build time) or the hand copy
+        println!("{}", if server::vharness::main_pieces_extracted() { "extracted" } else { "stub" });
+        return;
+    }
     let mut kv: HashMap<String, String> = HashMap::new();
     let mut i = 2;
     while i < args.len() {
